@@ -226,6 +226,16 @@ struct Run {
 			if (e > -1070 && e < 1020) from_d(std::ldexp(1.0 + (double)(g.next() >> 11) * 0x1p-53, (int)e) * (g.coin() ? 1 : -1));
 			if (e > -140 && e < 126) from_f(std::ldexp(1.0f + (float)(g.next() >> 41) * 0x1p-23f, (int)e) * (g.coin() ? 1 : -1));
 		}
+		// NaN sources with arbitrary payloads, both signs: the `setnan()` that follows the infinity test inside
+		// `unbiasedExponent == eallset` of convert_ieee754 (single payload bits first, then random fractions).
+		// Own generator, so that every line above is the same as before these cases were added.
+		uv::Rng gn(uv::seed_from_env() * 7919ull + nbits * 131ull + rbits * 7ull + (B == 'W' ? 3 : 0) + 11);
+		for (unsigned i = 0; i < 16; ++i) {
+			uint64_t fd = i < 4 ? (1ull << gn.below(52)) : (gn.next() & 0x000fffffffffffffull);
+			uint32_t ff = i < 4 ? (1u << gn.below(23)) : ((uint32_t)gn.next() & 0x007fffffu);
+			if (fd) from_d(uv::bits2double((gn.coin() ? 0x8000000000000000ull : 0ull) | 0x7ff0000000000000ull | fd));
+			if (ff) from_f(uv::bits2float((gn.coin() ? 0x80000000u : 0u) | 0x7f800000u | ff));
+		}
 	}
 
 	// ------------------------------------------------------------------ to native
